@@ -212,13 +212,10 @@ class Ctx:
         if parallel and self.jobs > 1 and n > 1:
             _preimport()
             cs = chunksize or max(1, min(64, n // (self.jobs * 8) or 1))
-            ctxmp = mp.get_context("fork")
-            with ProcessPoolExecutor(
-                max_workers=min(self.jobs, n), mp_context=ctxmp, initializer=_worker_init
-            ) as ex:
-                it = ex.map(_guarded, [evaluate] * n, cases, chunksize=cs)
-                for case, out in zip(cases, it):
-                    results.append((case, out))
+            ex = self._executor()
+            it = ex.map(_guarded, [evaluate] * n, cases, chunksize=cs)
+            for case, out in zip(cases, it):
+                results.append((case, out))
         else:
             for case in cases:
                 results.append((case, _guarded(evaluate, case)))
@@ -226,7 +223,7 @@ class Ctx:
             if tb is not None:
                 raise HarnessError(f"evaluate crashed on case {jsonable(case)}:\n{tb}")
             res = Result(outcome, [Fail(s, m) for s, m in fails], nontrivial, info)
-            if res.fails and redo:
+            if res.fails and redo and self._redo_budget(res.fails):
                 # replay discipline: the same case must fail the same way a second time
                 o2 = _guarded(evaluate, case)
                 if o2[4] is not None or o2[0] != outcome or sorted(s for s, _ in o2[1]) != sorted(
@@ -237,6 +234,26 @@ class Ctx:
                     )
             self.record(case, res)
         return results
+
+    def _redo_budget(self, fails):
+        """Re-run the first two failing cases of every signature (not hundreds of identical ones)."""
+        if not hasattr(self, "_redone"):
+            self._redone = {}
+        need = False
+        for f in fails:
+            c = self._redone.get(f.signature, 0)
+            if c < 2:
+                need = True
+            self._redone[f.signature] = c + 1
+        return need
+
+    def _executor(self):
+        """One pool of forked workers per run (forked after the package under test is imported)."""
+        if getattr(self, "_pool", None) is None:
+            self._pool = ProcessPoolExecutor(
+                max_workers=self.jobs, mp_context=mp.get_context("fork"), initializer=_worker_init
+            )
+        return self._pool
 
     # ---------------------------------------------------------------- findings
     @staticmethod
@@ -340,6 +357,9 @@ class Ctx:
         os.replace(tmp, EVIDENCE_DIR / f"{self.prop_id}.json")
 
     def cleanup(self):
+        if getattr(self, "_pool", None) is not None:
+            self._pool.shutdown(wait=False, cancel_futures=True)
+            self._pool = None
         shutil.rmtree(self.scratch, ignore_errors=True)
         try:
             self.scratch.parent.rmdir()
